@@ -27,6 +27,7 @@ func runC13(c *Ctx) {
 	c13ShrinkCopies(c)
 	c13TrackerAlways(c)
 	c13SelfRemoveIdentity(c)
+	makeCapCoversLen(c, "DRAIN", units(c.P, "control", func(f string) bool { return strings.HasPrefix(f, "udp_task_pool") || strings.HasPrefix(f, "udp_endpoint_pool") }), "a panic in the flow's worker drops every task still queued for that flow")
 }
 
 // heldAt: a Lock/RLock call on a receiver rendered as lockExpr dominates the point and no
